@@ -304,6 +304,17 @@ func VerifC08Pipeline() {
 	o2, e2 := vRender(p.steps, b)
 	nd.Assert(e1 == nil && e2 == nil, "pipeline-no-error")
 	nd.Assert(o1 == o2, "pipeline-equals-stepwise")
+	// what a filter hands to the next step is the value it printed: json's result is a string for
+	// size, ==, contains and a second json
+	xv := b["x"].(int)
+	js := map[int]string{-2: "-2", 0: "0", 3: "3"}[xv]
+	b["js"] = js
+	o3, e3 := vRender("{{ x | json | size }}|{% assign j = x | json %}{% if j == js %}eq{% else %}ne{% endif %}|{% if j contains js %}in{% endif %}|{{ 'h\u00e9' | json | size }}|{{ x | json | json }}", b)
+	sz := "1"
+	if xv < 0 {
+		sz = "2"
+	}
+	nd.Assert(e3 == nil && o3 == sz+"|eq|in|4|\""+js+"\"", "filter-result-is-the-value-it-prints")
 	nd.Reach("C08.pipeline")
 }
 
